@@ -67,6 +67,8 @@ def _c13(ctx):
     out.append(eff.rule_flags(ctx, 'X8', T.BAD_FLAGS))
     from .rules import bounds
     out.append(_x7(ctx, bounds.CODEC_FILES, 50, 35))
+    out.append(_x9(ctx, bounds.CODEC_FILES, 5, 200))
+    out.append(_x10(ctx))
     # functions documented to give the strong guarantee (object unchanged when they throw)
     out.append(exc.rule_X3m(ctx, {NSP + 'NearestNeighbor::Initialize', NSP + 'NearestNeighbor::Load'}))
     return out
@@ -93,6 +95,25 @@ def _w1(ctx, prop, floor):
     return r
 
 
+def _x9(ctx, files, fl_fns, fl_paths):
+    from .rules import fill
+    r, nf, npaths = fill.rule_X9(ctx, files)
+    r.floor('encoders with a fixed buffer', nf, fl_fns)
+    r.floor('hand-overs checked (paths x parameter values)', npaths, fl_paths)
+    return r
+
+
+X10_DECODERS = [NSP_ + x for NSP_ in ('GeographicLib::',) for x in ('GARS::Reverse', 'Georef::Reverse', 'Geohash::Reverse')]
+
+
+def _x10(ctx):
+    from .rules import decode
+    r, nf, npaths = decode.rule_X10(ctx, X10_DECODERS)
+    r.floor('decoders', nf, 3)
+    r.floor('outputs x accepting paths x lengths', npaths, 150)
+    return r
+
+
 def _t3(ctx, classes, floor):
     from .rules import tab
     r, n = tab.rule_T3(ctx, classes)
@@ -111,7 +132,7 @@ def _c04(ctx):
 
 
 def _c05(ctx):
-    return _exc_rules(ctx, 'C05') + [_w1(ctx, 'C05', 3), _t3(ctx, {'MGRS'}, 25), _x7(ctx, ('src/MGRS.cpp',), 15, 8)]
+    return _exc_rules(ctx, 'C05') + [_w1(ctx, 'C05', 3), _x9(ctx, ('src/MGRS.cpp',), 1, 100), _t3(ctx, {'MGRS'}, 25), _x7(ctx, ('src/MGRS.cpp',), 15, 8)]
 
 
 def _c10(ctx):
@@ -122,7 +143,7 @@ def _c10(ctx):
 
 
 def _c18(ctx):
-    return _exc_rules(ctx, 'C18') + [_w1(ctx, 'C18', 7), _t3(ctx, {'Geohash', 'GARS', 'Georef', 'OSGB'}, 22),
+    return _exc_rules(ctx, 'C18') + [_w1(ctx, 'C18', 7), _x10(ctx), _x9(ctx, ('src/Geohash.cpp', 'src/GARS.cpp', 'src/Georef.cpp', 'src/OSGB.cpp'), 4, 80), _t3(ctx, {'Geohash', 'GARS', 'Georef', 'OSGB'}, 22),
                                       _x7(ctx, ('src/Geohash.cpp', 'src/GARS.cpp', 'src/Georef.cpp', 'src/OSGB.cpp'), 25, 20)]
 
 
@@ -177,7 +198,11 @@ def _c03(ctx):
     m2.floor('gated writes of m12/M12/M21/S12', ns, 40)
     m4, nc, na = mask.rule_M4_overloads(ctx, only_outputs=outs)
     m4.floor('forwarded m12/M12/M21/S12 outputs', na, 80)
-    return [_t1(ctx, 'geodesic', {'A2m1f', 'C2f', 'C4coeff'}, 60), m2, m4,
+    from .rules import licrules
+    m7, nf7, nc7 = licrules.rule_M7(ctx)
+    m7.floor('gated functions', nf7, 15)
+    m7.floor('mask-gated placeholders', nc7, 3)
+    return [_t1(ctx, 'geodesic', {'A2m1f', 'C2f', 'C4coeff'}, 60), m2, m4, m7,
             _lic(ctx, ['GeodesicLine', 'GeodesicLineExact'], 'M3',
                  'capability licence: m12/M12/M21/S12 are computed only from line state the capabilities initialised',
                  {'GenPosition'}, 2)]
@@ -214,7 +239,10 @@ def _c12(ctx):
     m2c.floor('exit x output pairs', nob, 80)
     m6, n6 = licrules.rule_M6(ctx)
     m6.floor('members bound to conditional outputs', n6, 2)
-    return [m1, m2, m2c, m4, lic, m4c, m6]
+    m7, nf7, nc7 = licrules.rule_M7(ctx)
+    m7.floor('gated functions', nf7, 15)
+    m7.floor('mask-gated placeholders', nc7, 3)
+    return [m1, m2, m2c, m4, lic, m4c, m6, m7]
 
 
 def _c09(ctx):
